@@ -23,9 +23,19 @@ import types
 INT_TYPES = {
     "unsigned char": (8, False), "char": (8, True), "int": (32, True), "long": (64, True),
     "Py_ssize_t": (64, True), "unsigned int": (32, False), "unsigned long": (64, False),
+    "short": (16, True), "unsigned short": (16, False), "long long": (64, True), "unsigned long long": (64, False),
+    "size_t": (64, False), "ssize_t": (64, True), "Py_UCS4": (32, False), "unsigned": (32, False),
+    "int8_t": (8, True), "uint8_t": (8, False), "int16_t": (16, True), "uint16_t": (16, False),
+    "int32_t": (32, True), "uint32_t": (32, False), "int64_t": (64, True), "uint64_t": (64, False),
 }
+FLOAT_TYPES = {"double", "float", "long double"}
+NUM_EXTRA = FLOAT_TYPES | {"bint"}
 OBJ_TYPES = {"str", "bytearray", "bytes", "array.array", "object", "list"}
-ALL_TYPES = sorted(list(INT_TYPES) + ["double", "bint"] + sorted(OBJ_TYPES), key=len, reverse=True)
+OBJ_TYPES |= {"dict", "tuple", "set", "bytes", "unicode"}
+
+
+def all_types():
+    return sorted(list(INT_TYPES) + sorted(FLOAT_TYPES) + ["bint"] + sorted(OBJ_TYPES), key=len, reverse=True)
 
 
 class PyxTranslateError(Exception):
@@ -50,8 +60,11 @@ def co(t, v):
         if signed and v >> (bits - 1):
             v -= 1 << bits
         return v
-    if t == "double":
+    if t == "double" or t == "long double":
         return float(v)
+    if t == "float":
+        import struct
+        return struct.unpack("f", struct.pack("f", float(v)))[0]
     if t == "bint":
         return bool(v)
     if t == "str":
@@ -64,7 +77,7 @@ def co(t, v):
 def dflt(t):
     if t in INT_TYPES:
         return 0
-    if t == "double":
+    if t in FLOAT_TYPES:
         return 0.0
     if t == "bint":
         return False
@@ -86,12 +99,16 @@ class MV:
     def __len__(self):
         return len(self.buf)
 
+    def __iter__(self):
+        return iter(self.buf)
+
 
 def carr(t, n, src):
-    out = [co(t, x) for x in src]
+    """C array: a fixed-length buffer whose stores coerce to the element type."""
+    out = [co(t, x) for x in src] if src is not None else [dflt(t)] * n
     if len(out) != n:
         raise ValueError("C array length mismatch")
-    return out
+    return MV(t, out)
 
 
 def sig(ret, argtypes):
@@ -132,7 +149,8 @@ def logical_lines(src):
 def split_type(decl):
     """'unsigned char[:] binstr' -> ('unsigned char', '[:]', 'binstr');  'hexbytes' -> (None, '', 'hexbytes')."""
     decl = decl.strip()
-    for t in ALL_TYPES:
+    decl = re.sub(r"^(const|volatile)\s+", "", decl)
+    for t in all_types():
         if decl.startswith(t) and (len(decl) == len(t) or decl[len(t)] in " ["):
             rest = decl[len(t):].strip()
             m = re.match(r"^(\[[^\]]*\])?\s*(\w+)$", rest)
@@ -144,7 +162,9 @@ def split_type(decl):
     raise PyxTranslateError("unknown type in declaration: %r" % decl)
 
 
-CAST_RE = re.compile(r"<\s*(unsigned char|unsigned int|unsigned long|char|int|long|Py_ssize_t|double|bint)\s*>\s*")
+def cast_re():
+    names = sorted(list(INT_TYPES) + sorted(FLOAT_TYPES) + ["bint"], key=len, reverse=True)
+    return re.compile(r"<\s*(%s)\s*>\s*" % "|".join(re.escape(n) for n in names))
 
 
 def _primary_end(text, i):
@@ -189,15 +209,82 @@ def rewrite_casts(line):
     """<T> primary  ->  _co('T', primary)   (a C cast binds tighter than any binary operator)."""
     for _ in range(20):
         m = None
-        for m_ in CAST_RE.finditer(line):
+        for m_ in cast_re().finditer(line):
             m = m_                      # innermost-last first
         if m is None:
             break
         end = _primary_end(line, m.end())
         line = line[:m.start()] + "_co(%r, %s)" % (m.group(1), line[m.end():end]) + line[end:]
-    if re.search(r"<\s*(unsigned|char|int|long|double)\b[^<>=]*>\s*[\w(]", line) and "_co(" not in line:
+    if re.search(r"<\s*(unsigned|char|int|long|double|float|short)\b[^<>=]*>\s*[\w(]", line) and "_co(" not in line:
         raise PyxTranslateError("unhandled cast: %r" % line)
     return line
+
+
+def expand_blocks(lines, hidden):
+    """pre-pass: `cdef:` declaration blocks become one `cdef ...` line per member; `cdef enum [Name]:` blocks (and the
+    one-line form) become plain integer constants (not exported); `DEF N = v` becomes a constant; `ctypedef <known
+    type> alias` registers the alias; function headers lose `inline`, `nogil`, `noexcept`, `except ...`."""
+    out, i = [], 0
+    while i < len(lines):
+        line = lines[i]
+        stripped = line.strip()
+        indent = line[:len(line) - len(line.lstrip())]
+        m = re.match(r"^(cdef|cpdef)\s+enum\b\s*(\w+)?\s*:\s*(.*)$", stripped)
+        if m or re.match(r"^cdef\s*:\s*$", stripped):
+            members = []
+            if m and m.group(3).strip():
+                members.append(m.group(3).strip())
+            i += 1
+            while i < len(lines) and (not lines[i].strip() or len(lines[i]) - len(lines[i].lstrip()) > len(indent)):
+                if lines[i].strip() and not lines[i].strip().startswith("#"):
+                    members.append(re.sub(r"\s+#.*$", "", lines[i].strip()))
+                i += 1
+            if m:
+                prev = None
+                for item in [x.strip() for mem in members for x in mem.split(",") if x.strip()]:
+                    if item == "pass":
+                        continue
+                    name, _, val = item.partition("=")
+                    name = name.strip()
+                    if not re.match(r"^\w+$", name):
+                        raise PyxTranslateError("cannot parse enum member %r" % item)
+                    if val.strip():
+                        out.append("%s%s = _co('int', %s)" % (indent, name, val.strip()))
+                    else:
+                        out.append("%s%s = %s" % (indent, name, "0" if prev is None else "%s + 1" % prev))
+                    prev = name
+                    hidden.append(name)
+            else:
+                for mem in members:
+                    out.append("%scdef %s" % (indent, mem))
+            continue
+        m = re.match(r"^DEF\s+(\w+)\s*=\s*(.+)$", stripped)
+        if m:
+            out.append("%s%s = %s" % (indent, m.group(1), m.group(2)))
+            hidden.append(m.group(1))
+            i += 1
+            continue
+        m = re.match(r"^ctypedef\s+(.+?)\s+(\w+)\s*$", stripped)
+        if m:
+            base = re.sub(r"^(const|volatile)\s+", "", m.group(1).strip())
+            if base in INT_TYPES:
+                INT_TYPES[m.group(2)] = INT_TYPES[base]
+            elif base in FLOAT_TYPES:
+                FLOAT_TYPES.add(m.group(2))
+            else:
+                raise PyxTranslateError("unsupported ctypedef: %r" % stripped)
+            i += 1
+            continue
+        m = re.match(r"^(cpdef|cdef)\s+(.*\))\s*(nogil|noexcept|except\s*[^:]+|with\s+gil)*\s*:\s*$", stripped)
+        if m and not indent:
+            head = re.sub(r"^((?:cpdef|cdef)\s+)((?:inline|api|public)\s+)+", r"\1", stripped)
+            head = re.sub(r"\)\s*((nogil|noexcept|with\s+gil|except\s*[^:]+)\s*)+:\s*$", "):", head)
+            out.append(indent + head)
+            i += 1
+            continue
+        out.append(line)
+        i += 1
+    return out
 
 
 def translate(src):
@@ -207,7 +294,7 @@ def translate(src):
     typed = {}
     cur = None
     docstring_mode = False
-    for line in logical_lines(src):
+    for line in expand_blocks(logical_lines(src), hidden):
         stripped = line.strip()
         indent = line[:len(line) - len(line.lstrip())]
         if docstring_mode:
@@ -231,13 +318,18 @@ def translate(src):
                         continue                                  # builtin abs
                     out.append("%s = _libm(%r)" % (alias, src_name))
                 continue
-            if stripped in ("cimport cython",) or "cpython" in stripped:
+            if stripped in ("cimport cython",) or "cpython" in stripped or re.match(r"^from\s+libc\.(stdint|stddef|string|stdlib)\s+cimport\s", stripped):
+                m2 = re.match(r"^from\s+libc\.(?:string|stdlib)\s+cimport\s+(.*)$", stripped)
+                if m2:
+                    raise PyxTranslateError("libc.string / libc.stdlib functions are not modelled: %r" % stripped)
                 continue
             raise PyxTranslateError("unsupported cimport: %r" % stripped)
         m = re.match(r"^(cpdef|cdef)\s+(.*?)(\w+)\((.*)\)\s*:\s*$", stripped)
         if m and not indent:
             kind, rett, name, args = m.group(1), m.group(2).strip(), m.group(3), m.group(4)
-            if rett and rett not in INT_TYPES and rett not in ("double", "bint") and rett not in OBJ_TYPES:
+            if rett == "void":
+                rett = ""
+            if rett and rett not in INT_TYPES and rett not in tuple(NUM_EXTRA) and rett not in OBJ_TYPES:
                 raise PyxTranslateError("unknown return type %r in %r" % (rett, stripped))
             alist, plist = [], []
             for a in [x.strip() for x in args.split(",") if x.strip()]:
@@ -249,11 +341,11 @@ def translate(src):
                     raise PyxTranslateError("memoryview argument not supported: %r" % a)
                 alist.append((an, t))
                 plist.append(an if default is None else "%s=%s" % (an, default))
-            rt = rett if (rett in INT_TYPES or rett in ("double", "bint", "str")) else None
+            rt = rett if (rett in INT_TYPES or rett in tuple(NUM_EXTRA | {"str"})) else None
             out.append("@_sig(%r, %r)" % (rt, alist))
             out.append("def %s(%s):" % (name, ", ".join(plist)))
             cur = name
-            typed[cur] = {an: t for an, t in alist if t in INT_TYPES or t in ("double", "bint")}
+            typed[cur] = {an: t for an, t in alist if t in INT_TYPES or t in tuple(NUM_EXTRA)}
             (exported if kind == "cpdef" else hidden).append(name)
             continue
         m = re.match(r"^def\s+(\w+)\(", stripped)
@@ -278,7 +370,7 @@ def translate(src):
                 for nm in [name] + others:
                     if not re.match(r"^\w+$", nm):
                         raise PyxTranslateError("unsupported multi-declaration: %r" % stripped)
-                    if indent and cur and (t in INT_TYPES or t in ("double", "bint")):
+                    if indent and cur and (t in INT_TYPES or t in tuple(NUM_EXTRA)):
                         typed[cur][nm] = t
                     out.append("%s%s = _dflt(%r)" % (indent, nm, t))
                 continue
@@ -296,7 +388,7 @@ def translate(src):
                 else:
                     out.append("%s%s = _carr(%r, %s, %s)" % (indent, name, t, n, expr))
             else:
-                if t in INT_TYPES or t in ("double", "bint"):
+                if t in INT_TYPES or t in tuple(NUM_EXTRA):
                     if indent and cur:
                         typed[cur][name] = t
                     out.append("%s%s = %s" % (indent, name, ("_co(%r, %s)" % (t, expr)) if expr is not None else "_dflt(%r)" % t))
